@@ -142,6 +142,18 @@ let escapes = ["\\u003c"; "\\u003e"; "\\u0026"; "\\u2028"; "\\u2029"]
 
 let op_is_test (op : operation) = (op_kind op = KTest)
 
+(* nesting of a JSON text (brackets outside strings) *)
+let byte_depth (s : string) : int =
+  let d = ref 0 and m = ref 0 and instr = ref false and esc = ref false in
+  String.iter (fun c ->
+      if !instr then (if !esc then esc := false else if c = '\\' then esc := true else if c = '"' then instr := false)
+      else (match c with
+          | '"' -> instr := true
+          | '[' | '{' -> incr d; if !d > !m then m := !d
+          | ']' | '}' -> decr d
+          | _ -> ())) s;
+  !m
+
 (* ---------- apply ---------- *)
 let judge_apply f =
   let id = get f "id" in
@@ -166,7 +178,11 @@ let judge_apply f =
     if String.trim patch = "null" then add "C11" (S "null-patch")
     else add "C11" (if macc = dec then P else F (Printf.sprintf "DecodePatch accepted=%b model=%b" dec macc))
   end;
+  (* documents nested to the decoder's limit (stream apply-deep): only "does it panic or hang" is
+     judged; the model's printer is quadratic in the nesting depth (seconds per such case) *)
+  let huge = String.length doc > 15000 && get f "stream" = "apply-deep" in
   (match mops with
+   | Some _ when huge -> note := "deep document: C04 only"
    | Some ops when dec && status <> "panic" && status <> "timeout" ->
      let r = api_apply o (bytes_of_string indent) ops (bytes_of_string doc) in
      let impl_ok = status = "ok" in
@@ -183,6 +199,9 @@ let judge_apply f =
      let in_dom_base =
        match tdoc with
        | Some t -> root_container t && tnodup t && in_domain_C01 ops
+                   (* a copy of a value nested deeper than the decoder's limit is an error of the
+                      library (fix dc05ac4), not of RFC 6902: outside the domain (Depth.copies_fit) *)
+                   && copies_fit (dialect_of o) (den t) (List.map den_op ops)
        | None -> false in
      let alias = match tdoc with
        | Some t -> has_number_alias (t :: List.concat_map (fun (op : operation) -> match List.assoc_opt (bytes_of_string "value") op with
@@ -200,6 +219,9 @@ let judge_apply f =
         (match rr with
          | Done rdoc ->
            if not impl_ok then (add "C01" (F "reference succeeds, Apply fails"); add "C05" (S "failed"))
+           else if byte_depth out > 10000 then
+             (* the result nests deeper than the library's own notion of JSON (C16): not compared *)
+             (add "C01" (S "result-too-deep"); add "C05" (S "result-too-deep"))
            else (match out_den with
                | None -> add "C01" (F "output does not parse"); add "C05" (F "output does not parse")
                | Some od ->
@@ -218,7 +240,7 @@ let judge_apply f =
          | Done rdoc, ROut mb ->
            (match parse mb with
             | Some mt -> add "SELF" (if oeqb (den mt) rdoc then P else F "model result differs from ordered reference")
-            | None -> add "SELF" (F "model output does not parse"))
+            | None -> if byte_depth (string_of_bytes mb) > 10000 then () else add "SELF" (F "model output does not parse"))
          | Failed (i, _), RErr (Some j, _) -> add "SELF" (if int_of_nat i = int_of_nat j then P else F "model and reference fail at different operations")
          | Done _, _ -> add "SELF" (F "reference succeeds, model fails")
          | Failed _, _ -> add "SELF" (F "reference fails, model does not fail in an operation"))
